@@ -592,9 +592,184 @@ def judge_c12_group(cases, lab):
     return [(c, out[id(c)]) for c in cases]
 
 
+# -- C16 ---------------------------------------------------------------------------------------
+CACHE_SW = ("on", "DISABLED", "DISABLE", "ctx", "nocache")
+EFFECT_SW = ("on", "option", "perds")
+LOG_SW = ("on", "option", "ctx")
+ALL_SW = [(c, e, l) for c in CACHE_SW for e in EFFECT_SW for l in LOG_SW]
+
+
+class _LogCapture:
+    def __init__(self):
+        import logging
+
+        self.records = []
+        cap = self
+
+        class H(logging.Handler):
+            def emit(self, record):
+                cap.records.append((record.levelno, record.name, record.getMessage()))
+
+        self.h = H(level=0)
+        self.logging = logging
+
+    def __enter__(self):
+        root = self.logging.getLogger()
+        self._lvl = root.level
+        root.setLevel(0)
+        root.addHandler(self.h)
+        return self
+
+    def __exit__(self, *a):
+        root = self.logging.getLogger()
+        root.removeHandler(self.h)
+        root.setLevel(self._lvl)
+
+
+def _eval_with(g, o, sw, lab):
+    """One evaluation of g.root under o with the switch setting sw applied to THIS evaluation.
+    Returns (outcome, new log entries, emitted logging records)."""
+    import contextlib
+
+    import labrea.cache
+    import labrea.logging
+
+    cache, eff, log = sw
+    o2 = copy.deepcopy(o)
+    lab_opts = {}
+    if cache in ("DISABLED", "DISABLE"):
+        lab_opts.setdefault("CACHE", {})[cache] = True
+    if eff == "option":
+        lab_opts.setdefault("EFFECTS", {})["DISABLED"] = True
+    if log == "option":
+        lab_opts.setdefault("LOGGING", {})["DISABLED"] = True
+    if lab_opts:
+        o2["LABREA"] = lab_opts
+    datasets = [g.obj[i] for i, nd in enumerate(g.nodes, start=1) if nd["k"] in ("ds", "dsof")]
+    saved = []
+    # a pass-through handler counts the evaluations of Logged nodes: Logged sits inside cached(), so
+    # each one is a dataset evaluation that was not served from its cache
+    from labrea.logging import Logged
+    from labrea.runtime import current_runtime, handle
+    from labrea.types import EvaluateRequest
+
+    misses = []
+    inner = current_runtime().handlers.get(EvaluateRequest)
+
+    def passthrough(request):
+        if isinstance(request.evaluatable, Logged):
+            misses.append(1)
+        return inner(request)
+
+    with contextlib.ExitStack() as st:
+        st.enter_context(handle(EvaluateRequest, passthrough))
+        if cache == "ctx":
+            st.enter_context(labrea.cache.disabled())
+        if log == "ctx":
+            st.enter_context(labrea.logging.disabled())
+        if cache == "nocache":
+            from labrea.cache import NoCache
+
+            for d in datasets:
+                saved.append((d, d.cache))
+                d.set_cache(NoCache())
+        if eff == "perds":
+            for d in datasets:
+                d.disable_effects()
+        n0 = len(g.log)
+        try:
+            with _LogCapture() as cap:
+                out = observe.call(lambda: g.root.evaluate(o2), lab)
+        finally:
+            for d, c in saved:
+                d.set_cache(c)
+            if eff == "perds":
+                for d in datasets:
+                    d.enable_effects()
+    return out, list(g.log[n0:]), [r for r in cap.records if r[2].startswith("Labrea: Evaluating")], len(misses)
+
+
+def _ds_runs(entries, ids=None):
+    return [e for e in entries if e[0] in ("callback", "body") and e[3] and (ids is None or e[3] in ids)]
+
+
+def judge_c16_group(cases, lab):
+    import logging as pylogging
+    import zlib
+
+    out = {id(c): Result() for c in cases}
+    if not cases or not any(nd["k"] == "ds" for nd in cases[0]["nodes"]):
+        return [(c, out[id(c)]) for c in cases]
+    nodes = cases[0]["nodes"]
+    # every dataset of this family has a callback, so each non-hit evaluation of a dataset logs one
+    # ("callback", ..., owner) entry: that is the number of INFO records to expect
+    if any(nd["k"] == "ds" and not nd["cb"] for nd in nodes):
+        return [(c, out[id(c)]) for c in cases]
+    cached_ids = _cached_body_ids(nodes)
+    thorough = TIER[0] == "thorough"
+    for c in cases:
+        res = out[id(c)]
+        o = dec(c["a"]["o"])
+        base_g = _fresh(c, lab)
+        ref, ref_log, ref_rec, ref_miss = _eval_with(base_g, o, ("on", "on", "on"), lab)
+        if ref.get("lazy"):
+            continue
+        res.nontrivial = True
+        info = [r for r in ref_rec if r[0] == pylogging.INFO]
+        if len(info) != ref_miss or len(info) != len(ref_rec):
+            res.bad("one-log-per-miss", "all switches off, cold caches: %d dataset evaluations not served from a cache, %d INFO records (%d in all)" % (
+                ref_miss, len(info), len(ref_rec)))
+        h = zlib.crc32(canon_nodes(c).encode() + repr(o).encode())
+        settings = ALL_SW if thorough else [ALL_SW[(h + 7 * k) % len(ALL_SW)] for k in range(4)]
+        for sw in settings:
+            cache, eff, log = sw
+            tag = "[cache=%s effects=%s logging=%s]" % sw
+            # A: cold graph, evaluation under sw
+            g = _fresh(c, lab)
+            a_out, a_log, a_rec, a_miss = _eval_with(g, o, sw, lab)
+            if not same_outcome(a_out, ref):
+                res.bad("value" + tag, "with the switches the evaluation gives %s, with all switches off %s" % (
+                    observe.describe(a_out), observe.describe(ref)))
+                continue
+            if eff != "on" and [e for e in a_log if e[0] == "effect"]:
+                res.bad("effects-off" + tag, "effects ran although disabled: %s" % [(e[1], e[3]) for e in a_log if e[0] == "effect"][:4])
+            if log != "on" and a_rec:
+                res.bad("logging-off" + tag, "%d log records emitted although logging is disabled" % len(a_rec))
+            if log == "on":
+                info = [r for r in a_rec if r[0] == pylogging.INFO]
+                if len(info) != a_miss or len(a_rec) != len(info):
+                    res.bad("one-log-per-miss" + tag, "%d dataset evaluations were not served from a cache, %d INFO records (%d records in all)" % (
+                        a_miss, len(info), len(a_rec)))
+            if not a_out["ok"]:
+                continue
+            # B: the same graph again, all switches off: with caching disabled in A nothing was stored
+            b_out, b_log, _, _ = _eval_with(g, o, ("on", "on", "on"), lab)
+            b_runs = _ds_runs(b_log, cached_ids)
+            if not same_outcome(b_out, ref):
+                res.bad("value-after" + tag, "the next plain evaluation gives %s instead of %s" % (observe.describe(b_out), observe.describe(ref)))
+            if cache != "on" and cached_ids and nodes[-1]["k"] == "ds" and len(nodes) in cached_ids and not b_runs:
+                res.bad("disabled-wrote" + tag, "an evaluation with caching disabled left an entry behind: the next enabled evaluation ran nothing")
+            if cache == "on" and b_runs:
+                res.bad("enabled-did-not-store" + tag, "caching on, yet the repeat ran %s" % [(e[1], e[3]) for e in b_runs][:4])
+            # C: warm graph (B stored), evaluation under sw: disabled => recompute, and nothing is lost
+            c_out, c_log, _, _ = _eval_with(g, o, sw, lab)
+            c_runs = _ds_runs(c_log, cached_ids)
+            if not same_outcome(c_out, ref):
+                res.bad("value-warm" + tag, "warm caches: %s instead of %s" % (observe.describe(c_out), observe.describe(ref)))
+            if cache != "on" and nodes[-1]["k"] == "ds" and len(nodes) in cached_ids and not c_runs:
+                res.bad("disabled-read" + tag, "caching disabled, yet the stored entry was served (nothing ran)")
+            d_out, d_log, _, _ = _eval_with(g, o, ("on", "on", "on"), lab)
+            if _ds_runs(d_log, cached_ids):
+                res.bad("entry-lost" + tag, "after an evaluation with the switches the stored entry is gone: %s ran again" % [(e[1], e[3]) for e in _ds_runs(d_log, cached_ids)][:4])
+    return [(c, out[id(c)]) for c in cases]
+
+
+TIER = ["quick"]
+
 JUDGES = {"C04": judge_c04, "C09": judge_c09, "C05": judge_c05, "C10": judge_c10, "C11": judge_c11,
           "C08": judge_c08, "C06": judge_c06}
-GROUP_JUDGES = {"C03": judge_c03_group, "C01": judge_c01_group, "C02": judge_c02_group, "C12": judge_c12_group}
+GROUP_JUDGES = {"C03": judge_c03_group, "C01": judge_c01_group, "C02": judge_c02_group, "C12": judge_c12_group,
+                "C16": judge_c16_group}
 
 
 def ill_typed(case):
